@@ -8,6 +8,7 @@ import (
 	"go/ast"
 	"go/token"
 	"go/types"
+	"golang.org/x/tools/go/packages"
 	"sort"
 	"strings"
 
@@ -2395,7 +2396,25 @@ func ruleDispatchDecision(r *Run, rule string) {
 					opaque["(*"+tn+")."+m.Name()] = true
 				}
 			}
-			setup := func(in *Interp) { in.opaqueMethods = opaque }
+			// the predicates that change nothing (their own term has no write and no effect) may be consulted in any order
+			pure := map[string]bool{"(*Context).IsDataHazard3": true, "(InstructionType).IsBranch": true}
+			for _, mname := range []string{"IsDataHazard3"} {
+				if mfd, mpk := w.Method("risc", "Context", mname); mfd != nil {
+					pure["(*Context)."+mname] = termIsPure(w, mfd, mpk)
+				}
+			}
+			for i := 0; i < f.unitT.NumMethods(); i++ {
+				m := f.unitT.Method(i)
+				if m.Name() == decide.Name.Name {
+					continue
+				}
+				if mfd, mpk := w.FuncDecl(m); mfd != nil && mfd.Body != nil {
+					if sig := m.Type().(*types.Signature); sig.Results().Len() > 0 && typeName(sig.Results().At(0).Type()) == "bool" {
+						pure["(*"+tn+")."+m.Name()] = termIsPure(w, mfd, mpk)
+					}
+				}
+			}
+			setup := func(in *Interp) { in.opaqueMethods = opaque; in.pureOpaque = pure }
 			var refs []string
 			switch {
 			case hasDeclMethod(f.unitT, "shouldUseRenaming") != nil:
@@ -3909,4 +3928,26 @@ func errDefinedBy(info *types.Info, as *ast.AssignStmt) types.Object {
 		return nil
 	}
 	return o
+}
+
+// termIsPure: the function's own normal form writes nothing and has no effect on any outcome.
+func termIsPure(w *World, fd *ast.FuncDecl, pkg *packages.Package) bool {
+	in := newInterp(w)
+	t, err := in.FuncTerm(fd, pkg)
+	if err != nil {
+		return false
+	}
+	pure := true
+	t.subst(func(x *Term) *Term {
+		switch x.Op {
+		case "w", "callfx":
+			pure = false
+		case "fx":
+			if len(x.Args) > 0 {
+				pure = false
+			}
+		}
+		return nil
+	})
+	return pure
 }
